@@ -72,7 +72,36 @@ def cases(tier: str) -> list:
             if runs_distinct(seq):
                 break
         cs.append({"kind": "rand", "seq": seq})
+    # the access plan the simulator builds for whole programs (`_build_acc_plan`: one queue per register)
+    for k in range(4000 if thorough else 400):
+        cs.append({"kind": "plan", "id": k})
     return cs
+
+
+def gen_plan_prog(case):
+    rng = core.case_rng(NAME, "plan:%d" % case["id"])
+    regs = ["R%d" % i for i in range(rng.randint(1, 4))]
+    prog = []
+    for _ in range(rng.randint(0, 10)):
+        srcs = sorted({rng.choice(regs) for _ in range(rng.randint(0, 3))})
+        prog.append({"srcs": srcs, "dst": rng.choice(regs), "cap": "ALU"})
+    return prog
+
+
+def evaluate_plan(inp: dict) -> dict:
+    core.install_repo()
+    from program_defs import HwInstruction
+    from reg_access import AccessType
+    import sim_services
+
+    prog = inp["prog"]
+    build = getattr(sim_services, "_build_acc_plan", None)
+    if build is None:  # private helper gone after a refactoring: nothing to compare at this level
+        return {"app": False, "nontrivial": False, "k": True, "o": None, "states": 0}
+    plan = build(enumerate([HwInstruction(i["srcs"], i["dst"], i["cap"]) for i in prog]))
+    impl = [[r, [[g.access_type == AccessType.WRITE, sorted(g.reqs)] for g in reversed(q._queue)]] for r, q in plan.items()]
+    ans = core.driver().ask({"op": "plan", "prog": prog, "impl": impl})
+    return {"app": True, "nontrivial": len(prog) >= 2, "k": bool(ans["k"]["C19"]), "o": ans["o"]["C19"], "states": len(impl)}
 
 
 def explore(seq):
@@ -133,6 +162,10 @@ def explore(seq):
 
 def evaluate(inp: dict) -> dict:
     core.install_repo()
+    if inp.get("kind") == "plan":
+        if "prog" not in inp:
+            inp = dict(inp, prog=gen_plan_prog(inp))
+        return evaluate_plan(inp)
     try:
         states = explore(inp["seq"])
     except core.CaseTimeout:
@@ -143,6 +176,14 @@ def evaluate(inp: dict) -> dict:
 
 
 def run_case(case, tier="quick") -> dict:
+    if case.get("kind") == "plan":
+        case = dict(case, prog=gen_plan_prog(case), seq=[])
+        rec = evaluate(case)
+        out = {"case": case, "family": "plan", "digest": hashlib.sha1(json.dumps(case["prog"]).encode()).hexdigest(),
+               "tags": ["plan", "n:%d" % len(case["prog"])], "props": {"C19": {k: rec[k] for k in ("app", "nontrivial", "k", "o")}}}
+        if (not rec["k"]) or rec["o"] is not None:
+            out["input"] = case
+        return out
     rec = evaluate(case)
     digest = hashlib.sha1(json.dumps(case["seq"]).encode()).hexdigest()
     out = {"case": case, "family": case["kind"], "digest": digest,
@@ -162,6 +203,8 @@ def replay(prop: str, inp: dict) -> dict:
 def shrink(prop: str, inp: dict, still_fails) -> dict:
     cur = inp
     changed = True
+    if cur.get("kind") == "plan":
+        return cur
     while changed:
         changed = False
         for i in range(len(cur["seq"]) - 1, -1, -1):
